@@ -17,6 +17,9 @@ import (
 // stopOnFail: set by the selftest, where one failed obligation per mutant is all that is asked for.
 var stopOnFail bool
 
+// crossCheck: let all racers finish and compare their answers (selftest and thorough tier).
+var crossCheck bool
+
 const verifRoot = "/verif"
 const repoRoot = "/repo"
 
@@ -34,6 +37,7 @@ type propRun struct {
 	paths       int
 	queries     int
 	notes       []string
+	mirrored    []string
 }
 
 // runProp loads the packages (with an optional overlay), generates the obligations of the
@@ -41,7 +45,43 @@ type propRun struct {
 func runProp(cfg *PropCfg, timeout time.Duration, overlay map[string][]byte, work string, confirm bool, jobs int) *propRun {
 	t0 := time.Now()
 	r := &propRun{cfg: cfg, notVerified: map[string]string{}}
-	prog, err := vc.Load(vc.LoadConfig{Dir: repoRoot, Patterns: cfg.Pkgs, Overlay: overlay})
+	// mirrored packages: verified through their original while the files are byte-identical
+	patterns := append([]string{}, cfg.Pkgs...)
+	read := func(pkg, file string) []byte {
+		path := filepath.Join(repoRoot, pkg, file)
+		if b, ok := overlay[path]; ok {
+			return b
+		}
+		b, _ := os.ReadFile(path)
+		return b
+	}
+	for _, m := range cfg.Mirrors {
+		same := true
+		for _, f := range m.Files {
+			a, b := read(m.Pkg, f), read(m.Of, f)
+			if a == nil || b == nil || string(a) != string(b) {
+				same = false
+			}
+		}
+		if !same {
+			continue
+		}
+		var keep []string
+		dropped := false
+		for _, p := range patterns {
+			if p == m.Pkg {
+				dropped = true
+				continue
+			}
+			keep = append(keep, p)
+		}
+		if dropped {
+			patterns = keep
+			r.notes = append(r.notes, fmt.Sprintf("package %s: %v are byte-identical to %s (compared on this run); its obligations are the obligations of %s", m.Pkg, m.Files, m.Of, m.Of))
+			r.mirrored = append(r.mirrored, m.Pkg)
+		}
+	}
+	prog, err := vc.Load(vc.LoadConfig{Dir: repoRoot, Patterns: patterns, Overlay: overlay})
 	if err != nil {
 		r.loadErr = err
 		return r
@@ -93,7 +133,7 @@ func runProp(cfg *PropCfg, timeout time.Duration, overlay map[string][]byte, wor
 	r.queries = len(all)
 	_ = os.RemoveAll(work)
 	t1 := time.Now()
-	r.outs = prog.SolveAll(all, vc.SolveConfig{WorkDir: work, Timeout: timeout, Jobs: jobs, Keep: false, Confirm: confirm, StopOnFail: stopOnFail})
+	r.outs = prog.SolveAll(all, vc.SolveConfig{WorkDir: work, Timeout: timeout, Jobs: jobs, Keep: false, Confirm: confirm, StopOnFail: stopOnFail, CrossCheck: crossCheck || confirm})
 	r.solveTime = time.Since(t1).Seconds()
 	r.sums = vc.Summarise(r.outs)
 	r.wall = time.Since(t0).Seconds()
@@ -158,7 +198,7 @@ func checkMain(args []string) int {
 		confirm = true
 	}
 	work := filepath.Join(verifRoot, ".work", id+"-"+tier)
-	r := runProp(cfg, timeout, nil, work, confirm, 6)
+	r := runProp(cfg, timeout, nil, work, confirm, 5)
 	if r.loadErr != nil {
 		fmt.Fprintln(os.Stderr, "govc: cannot load /repo:", r.loadErr)
 		// the tree does not build: that is not a property violation we can attribute; report as engine failure
@@ -183,6 +223,9 @@ func checkMain(args []string) int {
 			}
 		}
 		ok := s.Status == "proved" || s.Status == "covered"
+		if ok && s.Time > 8 {
+			fmt.Printf("note: slow obligation %s: %.1fs over %d queries %v\n", s.Ob, s.Time, s.Paths, s.Worst.Tried)
+		}
 		if ok {
 			discharged++
 			if len(samples) < 16 && !strings.Contains(s.Ob, "cover.") && (cfg.obre == nil || cfg.obre.MatchString(s.Ob)) && (cfg.obre != nil || strings.Contains(s.Ob, "#post") || strings.Contains(s.Ob, "#behavior") || strings.Contains(s.Ob, "#lemma") || strings.Contains(s.Ob, "inv")) {
@@ -211,6 +254,13 @@ func checkMain(args []string) int {
 		writeJSON(path, map[string]any{"property": id, "obligation": ob, "status": "undecided", "reason": r.notVerified[k],
 			"note": "the function (or its contract) is outside what the verifier accepts after this change; the obligation that passed on the unchanged tree can no longer be generated"})
 		fmt.Printf("VIOLATION property=%s replay=%s obligation=%s no-failing-input-found\n", id, path, ob)
+	}
+	for _, s := range failed {
+		if s.Status == "engine-error" {
+			// two back ends disagree on the same query: nothing this run says can be believed
+			fmt.Printf("govc: ENGINE ERROR on %s: %s\n", s.Ob, s.Worst.Detail)
+			return 2
+		}
 	}
 	for _, s := range failed {
 		if f, ok := known[s.Ob]; ok {
@@ -267,6 +317,7 @@ func checkMain(args []string) int {
 			"queries":                  r.queries,
 			"samples":                  samples,
 			"partial_scope":            cfg.Scope,
+			"mirrored_packages":        r.mirrored,
 			"notes":                    dedupe(r.notes),
 		},
 		"assumptions": assumptions,
